@@ -19,6 +19,10 @@ Theorems (all unbounded: every history of calls, every byte string, every segmen
                              every starting state, cutting the stream into `dataReceived`
                              calls changes neither the calls made nor the final state;
 * `segmentation_independent` — corollary for written streams;
+* `transparent_with_negotiation` — the headline over HISTORIES in which the sender's own telnet layer transmits in
+                             between the application writes (`will/wont/do/dont(option)`, `requestNegotiation(about, data)`):
+                             the peer makes exactly the sender's own calls, the application bytes arrive exactly;
+* `loopAcc_eq`, `feedEachFast_eq` — the accumulator loop the driver runs (linear in the read size) is the model's loop;
 * `writeSequenceRaw_counterexample` — the pre-repair `writeSequence` falsifies the property;
 * `cr_is_not_transparent`  — why the CR precondition is there;
 * `gen_*`                  — `TelnetTransport.write` (the chained `bytes.replace`) is regenerated from telnet.py on
@@ -421,6 +425,183 @@ example :
     (trace init w).evs = [.app [0x61], .cmd 0xfb (some 0x01), .app [0x62], .cmd 0xf4 none,
                           .neg [0x1f, 0xff], .app [0x0d], .app [0x63]] ∧
     expand (feedAll init [w.take 2, (w.drop 2).take 9, w.drop 11]).evs = (trace init w).evs := by
+  decide
+
+/-! ### The driver's accumulator loop is the model's loop -/
+
+/-- `loopAcc` (buffer kept reversed) computes `loop` -/
+theorem loopAcc_eq (xs : Bytes) : ∀ (st : St) (rbuf : Bytes), loopAcc st rbuf xs = loop st rbuf.reverse xs := by
+  induction xs with
+  | nil => intro st rbuf; simp [loopAcc, loop]
+  | cons b rest ih =>
+    intro st rbuf
+    rcases hs : step st b with ⟨st', a⟩
+    cases a with
+    | skip => rw [loopAcc, hs, loop_skip _ _ hs]; exact ih st' rbuf
+    | push bs => rw [loopAcc, hs, loop_push _ _ hs]; simp only []; rw [ih]; simp
+    | call e => rw [loopAcc, hs, loop_call _ _ hs]; simp only []; rw [ih]; simp
+    | raise e => rw [loopAcc, hs, loop_raise _ _ hs]
+    | flushRaise e => rw [loopAcc, hs, loop_flushRaise _ _ hs]
+
+/-- what the driver runs (`feedEachFast`) is the model's per-segment `dataReceived` results -/
+theorem feedEachFast_eq (cs : List Bytes) : ∀ st : St, feedEachFast st cs = feedEach st cs := by
+  induction cs with
+  | nil => intro st; rfl
+  | cons c cs ih =>
+    intro st
+    simp only [feedEachFast, feedEach, dataReceived]
+    rw [loopAcc_eq]; simp only [List.reverse_nil]; rw [ih]
+
+/-! ### Histories with the sender's own telnet layer in between the writes
+
+`will/do/wont/dont(option)` and `requestNegotiation(about, data)` go to the wire through `Telnet._write`, unescaped,
+in between the application's writes.  The statement then says: the peer's `commandReceived` / `negotiate` calls are
+exactly those the SENDER's telnet layer asked for — no byte of application data adds one — and the application bytes
+arrive exactly as written, for every segmentation. -/
+
+/-- side conditions: application bytes CR-free (the statement's precondition); the command byte one of
+    WILL/WONT/DO/DONT; the subnegotiated option byte not IAC (telnet.py writes it unescaped) -/
+def hopOk : HOp → Prop
+  | .app op => CR ∉ op.payload
+  | .cmd c _ => isOptCmd c = true
+  | .subneg about _ => about ≠ IAC
+
+def hopItems : HOp → List Ev
+  | .app op => op.payload.map item
+  | o => o.calls
+
+theorem escIAC_cons (b : UInt8) (d : Bytes) : escIAC (b :: d) = (if b = IAC then [IAC, IAC] else [b]) ++ escIAC d := by
+  simp [escIAC]
+
+theorem optCmd_facts (c : UInt8) (h : isOptCmd c = true) : c ≠ IAC ∧ c ≠ SB ∧ isSimpleCmd c = false := by
+  simp only [isOptCmd, WILL, DONT, Bool.and_eq_true, decide_eq_true_eq, UInt8.le_iff_toNat_le] at h
+  have h1 : 251 ≤ c.toNat := by simpa using h.1
+  have h2 : c.toNat ≤ 254 := by simpa using h.2
+  refine ⟨?_, ?_, ?_⟩
+  · intro e; subst e; simp [IAC] at h2
+  · intro e; subst e; simp [SB] at h1
+  · simp only [isSimpleCmd, EOR, NOP, GA, Bool.or_eq_false_iff, Bool.and_eq_false_iff, beq_eq_false_iff_ne, ne_eq,
+      decide_eq_false_iff_not, UInt8.le_iff_toNat_le]
+    refine ⟨?_, ?_⟩
+    · intro e; subst e; simp at h1
+    · right; simp; omega
+
+theorem trace_subneg_data (d : Bytes) : ∀ (c : UInt8) (cmds rest : Bytes),
+    trace ⟨.subneg, c, cmds⟩ (escIAC d ++ rest) = trace ⟨.subneg, c, cmds ++ d⟩ rest := by
+  induction d with
+  | nil => intro c cmds rest; simp [escIAC]
+  | cons b d ih =>
+    intro c cmds rest
+    rw [escIAC_cons, List.append_assoc]
+    by_cases h : b = IAC
+    · subst h
+      have s1 : step ⟨.subneg, c, cmds⟩ IAC = (⟨.subnegEsc, c, cmds⟩, .skip) := by simp [step]
+      have s2 : step ⟨.subnegEsc, c, cmds⟩ IAC = (⟨.subneg, c, cmds ++ [IAC]⟩, .skip) := by
+        simp [step, show IAC ≠ SE by decide]
+      simp only [if_true, List.cons_append, List.nil_append]
+      rw [trace_skip _ s1, trace_skip _ s2, ih]; simp
+    · have s1 : step ⟨.subneg, c, cmds⟩ b = (⟨.subneg, c, cmds ++ [b]⟩, .skip) := by simp [step, h]
+      simp only [h, if_false, List.cons_append, List.nil_append]
+      rw [trace_skip _ s1, ih]; simp
+
+theorem trace_hop (o : HOp) (hok : hopOk o) (rest : Bytes) :
+    trace init (o.wire ++ rest) = (trace init rest).prepend (hopItems o) := by
+  cases o with
+  | app op =>
+    simp only [HOp.wire, hopItems, opWire_eq]
+    exact trace_write op.payload hok 0 [] rest
+  | cmd c opt =>
+    obtain ⟨h1, h2, h3⟩ := optCmd_facts c hok
+    have s1 : step init IAC = (⟨.escaped, 0, []⟩, .skip) := by simp [step, init]
+    have s2 : step ⟨.escaped, 0, []⟩ c = (⟨.command, c, []⟩, .skip) := by
+      simp [step, h1, h2, h3]; exact hok
+    have s3 : step ⟨.command, c, []⟩ opt = (init, .call (.cmd c (some opt))) := by simp [step, init]
+    simp only [HOp.wire, hopItems, HOp.calls, List.cons_append, List.nil_append]
+    rw [trace_skip _ s1, trace_skip _ s2, trace_call _ s3]; rfl
+  | subneg about d =>
+    have hab : about ≠ IAC := hok
+    have s1 : step init IAC = (⟨.escaped, 0, []⟩, .skip) := by simp [step, init]
+    have s2 : step ⟨.escaped, 0, []⟩ SB = (⟨.subneg, 0, []⟩, .skip) := by simp [step]; decide
+    have s3 : step ⟨.subneg, 0, []⟩ about = (⟨.subneg, 0, [about]⟩, .skip) := by simp [step, hab]
+    have s4 : step ⟨.subneg, 0, about :: d⟩ IAC = (⟨.subnegEsc, 0, about :: d⟩, .skip) := by simp [step]
+    have s5 : step ⟨.subnegEsc, 0, about :: d⟩ SE = (init, .call (.neg (about :: d))) := by simp [step, init]
+    simp only [HOp.wire, hopItems, HOp.calls, List.cons_append, List.nil_append, List.append_assoc]
+    rw [trace_skip _ s1, trace_skip _ s2, trace_skip _ s3, trace_subneg_data]
+    simp only [List.cons_append, List.nil_append]
+    rw [trace_skip _ s4, trace_call _ s5]; rfl
+
+def hitems (h : List HOp) : List Ev := (h.map hopItems).flatten
+
+theorem trace_hwire (h : List HOp) (hok : ∀ o ∈ h, hopOk o) :
+    trace init (hwire h) = ⟨init, hitems h, none⟩ := by
+  induction h with
+  | nil => simp [hwire, hitems, trace]
+  | cons o h ih =>
+    have := trace_hop o (hok o (by simp)) (hwire h)
+    simp only [hwire, hitems, List.map_cons, List.flatten_cons] at ih this ⊢
+    rw [this, ih (fun o' ho' => hok o' (by simp [ho']))]
+    simp [Res.prepend]
+
+theorem appBytes_hitems (h : List HOp) : appBytes (hitems h) = hpayload h := by
+  induction h with
+  | nil => rfl
+  | cons o h ih =>
+    simp only [hitems, hpayload, List.map_cons, List.flatten_cons] at ih ⊢
+    rw [appBytes_append, ih]
+    cases o <;> simp [hopItems, HOp.payload, HOp.calls, appBytes_items, appBytes]
+
+theorem nonApp_hitems (h : List HOp) : nonApp (hitems h) = hcalls h := by
+  induction h with
+  | nil => rfl
+  | cons o h ih =>
+    simp only [hitems, hcalls, List.map_cons, List.flatten_cons] at ih ⊢
+    rw [nonApp_append, ih]
+    cases o <;> simp [hopItems, HOp.calls, nonApp_items, nonApp]
+
+/-- **C38 over histories with negotiation.**  For every history of application `write` / `writeSequence` calls
+    (CR-free bytes), option commands and subnegotiations (any data, IAC included) of the sender's telnet layer, and every
+    segmentation of the wire stream, a fresh receiver: raises nowhere; makes exactly the sender's own
+    `commandReceived` / `negotiate` calls, in order (application bytes cause none); hands
+    `applicationDataReceived` exactly the written application bytes, in order; ends in its initial state. -/
+theorem transparent_with_negotiation (h : List HOp) (hok : ∀ o ∈ h, hopOk o)
+    (cs : List Bytes) (hseg : cs.flatten = hwire h) :
+    (feedAll init cs).err = none ∧
+    nonApp (feedAll init cs).evs = hcalls h ∧
+    appBytes (feedAll init cs).evs = hpayload h ∧
+    (feedAll init cs).st = init := by
+  have ht : trace init cs.flatten = ⟨init, hitems h, none⟩ := by rw [hseg]; exact trace_hwire h hok
+  obtain ⟨h1, h2, h3⟩ := segmentation_invariant cs init (by rw [ht])
+  rw [ht] at h2 h3
+  refine ⟨h1, ?_, ?_, h2⟩
+  · rw [← nonApp_expand, h3]; exact nonApp_hitems h
+  · rw [← appBytes_expand, h3]; exact appBytes_hitems h
+
+
+/-- a history of application writes only is the old setting: same wire, same payload, no calls -/
+theorem hwire_app (ops : List Op) :
+    hwire (ops.map HOp.app) = wire ops ∧ hpayload (ops.map HOp.app) = payload ops ∧ hcalls (ops.map HOp.app) = [] := by
+  induction ops with
+  | nil => simp [hwire, hpayload, hcalls, wire, payload]
+  | cons op ops ih =>
+    simp only [hwire, hpayload, hcalls, wire, payload, List.map_cons, List.flatten_cons] at ih ⊢
+    obtain ⟨i1, i2, i3⟩ := ih
+    exact ⟨by rw [i1]; rfl, by rw [i2]; rfl, by rw [i3]; rfl⟩
+
+/-- `write(b"a\n")`, `will(b"\x00")`, `writeSequence([b"\xff", b"\n"])`, `requestNegotiation(b"\x1f", b"\x00\xff\xf0\r\n")`,
+    `write(b"b")`, the wire cut inside the command, inside CR LF, inside IAC IAC and inside the subnegotiation:
+    hypotheses hold; the calls are the sender's two, the application bytes the written ones. -/
+example :
+    let h := [HOp.app (.write [0x61, 0x0a]), .cmd 0xfb 0x00, .app (.writeSeq [[0xff], [0x0a]]),
+              .subneg 0x1f [0x00, 0xff, 0xf0, 0x0d, 0x0a], .app (.write [0x62])]
+    let cs : List Bytes := [[0x61, 0x0d], [0x0a, 0xff, 0xfb], [0x00, 0xff], [0xff, 0x0d, 0x0a, 0xff, 0xfa, 0x1f, 0x00, 0xff],
+                            [0xff, 0xf0, 0x0d, 0x0a, 0xff], [0xf0, 0x62]]
+    cs.flatten = hwire h ∧
+    nonApp (feedAll init cs).evs = [.cmd 0xfb (some 0x00), .neg [0x1f, 0x00, 0xff, 0xf0, 0x0d, 0x0a]] ∧
+    nonApp (feedAll init cs).evs = hcalls h ∧
+    appBytes (feedAll init cs).evs = hpayload h ∧ hpayload h = [0x61, 0x0a, 0xff, 0x0a, 0x62] := by
+  decide
+
+example : feedEachFast init [[0x61, 0xff], [0xff, 0xf4, 0x0d], [0x0a]] = feedEach init [[0x61, 0xff], [0xff, 0xf4, 0x0d], [0x0a]] := by
   decide
 
 end TwistedProps.C38
